@@ -135,6 +135,23 @@ func getEndOfLastValuePositionInFile(fname string, startPos int64) (int64, error
 	}
 }
 
+// followStartOver empties the local log and the in-memory dataset (objects,
+// hooks and channels) so that a follower that shares no usable prefix with its
+// leader resynchronizes from position zero on a clean slate.
+func (s *Server) followStartOver() error {
+	fname := s.aof.Name()
+	s.aof.Close()
+	var err error
+	s.aof, err = os.Create(fname)
+	if err != nil {
+		log.Fatalf("could not recreate aof, possible data loss. %s", err.Error())
+		return err
+	}
+	s.aofbuf = s.aofbuf[:0]
+	s.reset()
+	return nil
+}
+
 // followCheckSome is not a full checksum. It just "checks some" data.
 // We will do some various checksums on the leader until we find the correct position to start at.
 func (s *Server) followCheckSome(addr string, followc int, auth string,
@@ -147,7 +164,16 @@ func (s *Server) followCheckSome(addr string, followc int, auth string,
 	if int(s.followc.Load()) != followc {
 		return 0, errNoLongerFollowing
 	}
+	if s.aofsz == 0 {
+		return 0, nil
+	}
 	if s.aofsz < checksumsz {
+		// The local log is too short to be compared with the leader's. It
+		// cannot be kept: the leader is going to stream its log from the
+		// start, so the local log and dataset must start from zero as well.
+		if err := s.followStartOver(); err != nil {
+			return 0, err
+		}
 		return 0, nil
 	}
 
@@ -194,10 +220,7 @@ func (s *Server) followCheckSome(addr string, followc int, auth string,
 	fullpos := pos
 	fname := s.aof.Name()
 	if pos == 0 {
-		s.aof.Close()
-		s.aof, err = os.Create(fname)
-		if err != nil {
-			log.Fatalf("could not recreate aof, possible data loss. %s", err.Error())
+		if err := s.followStartOver(); err != nil {
 			return 0, err
 		}
 		return 0, nil
